@@ -415,7 +415,11 @@ func (t *Thread) cleanupCloseStack(c Cont, h int, err error) error {
 		if Truth(v) {
 			closeErr, ok := Metacall(t, v, "__close", []Value{v, ErrorValue(err)}, NewTerminationWith(c, 0, false))
 			if !ok {
-				return errors.New("to be closed value missing a __close metamethod")
+				// The metamethod was removed after the declaration: this is an error
+				// like any other raised while closing, the remaining values are
+				// still closed.
+				err = errors.New("to be closed value missing a __close metamethod")
+				continue
 			}
 			if closeErr != nil {
 				err = closeErr
